@@ -337,3 +337,44 @@ pub fn ctx_from_name(s: &str) -> HResult<coset::EncryptionContext> {
 pub fn ctx_is_recipient(s: &str) -> bool {
     matches!(s, "EncRecipient" | "MacRecipient" | "RecRecipient")
 }
+
+/// A byte-exact ASN.1 DER `SEQUENCE { INTEGER r, INTEGER s }` (the form ECDSA signatures have
+/// outside COSE) whose `r` starts with `marker`; `n` is the field size in bytes.
+pub fn der_ecdsa_sig(marker: &[u8], n: usize) -> Vec<u8> {
+    let mut r: Vec<u8> = marker.iter().map(|b| b & 0x7f).collect();
+    if r.is_empty() || r[0] == 0 {
+        r.insert(0, 0x54);
+    }
+    while r.len() < n {
+        r.push((r.len() as u8).wrapping_mul(29) | 1);
+    }
+    r.truncate(n);
+    let mut sv: Vec<u8> = (0..n).map(|i| (i as u8).wrapping_mul(53) | 1).collect();
+    sv[0] = 0x01 | (sv[0] & 0x7f);
+    let int = |v: &[u8]| -> Vec<u8> {
+        let mut o = vec![0x02];
+        let mut body = v.to_vec();
+        if body[0] & 0x80 != 0 {
+            body.insert(0, 0);
+        }
+        o.extend(der_len(body.len()));
+        o.extend(body);
+        o
+    };
+    let mut content = int(&r);
+    content.extend(int(&sv));
+    let mut out = vec![0x30];
+    out.extend(der_len(content.len()));
+    out.extend(content);
+    out
+}
+
+fn der_len(n: usize) -> Vec<u8> {
+    if n < 128 {
+        vec![n as u8]
+    } else if n < 256 {
+        vec![0x81, n as u8]
+    } else {
+        vec![0x82, (n >> 8) as u8, n as u8]
+    }
+}
